@@ -255,7 +255,17 @@ func c04Existence(a *Anchors, r *core.Report) {
 			}
 			if m, ok := syncMapCall(cc); ok && m == "Load" {
 				if t := tableOf(a, cc); t != "" && t != "applications" {
-					load, tbl = in, t
+					// the existence check is the lookup made before any relation is added (a lookup made
+					// after the add is the re-validation L3 asks for)
+					afterAdd := false
+					eachInstr(f, func(i2 ssa.Instruction) {
+						if callsNamed(i2, "AddLink", "AddMonitor") && instrReachable(i2, in) {
+							afterAdd = true
+						}
+					})
+					if !afterAdd {
+						load, tbl = in, t
+					}
 				}
 			}
 		})
@@ -336,23 +346,56 @@ func c04Existence(a *Anchors, r *core.Report) {
 			r.Unk(rule3, key3, fn, a.P.Pos(load.Pos()), inst3, "no add on the found edge")
 			continue
 		}
-		// accepted: re-validation (another Load of the same table after the add on every path to a nil return), or insert before check
-		reval := false
-		for _, h := range walkAvoid([]Point{after(localAdd)}, nil, func(in ssa.Instruction) bool {
+		// accepted: re-validation — every path from the add to a successful return looks the target up
+		// again in the same table, and on the "gone" edge of that lookup the relation is taken back
+		// (Remove*) before anything is returned
+		isReload := func(in ssa.Instruction) bool {
 			cc := callCommon(in)
 			if cc == nil {
 				return false
 			}
 			m, ok := syncMapCall(cc)
 			return ok && m == "Load" && tableOf(a, cc) == tbl
-		}) {
-			_ = h
-			reval = true
 		}
-		if reval {
-			r.OK(rule3, key3, fn, a.P.Pos(localAdd.Pos()), inst3, "the target is looked up again after the insert")
+		isOKReturn := func(in ssa.Instruction) bool {
+			ret, ok := in.(*ssa.Return)
+			return ok && maybeNilResult(ret, errIdx)
+		}
+		wantRemove := "RemoveMonitor"
+		if isLink {
+			wantRemove = "RemoveLink"
+		}
+		missed := reaches([]Point{after(localAdd)}, isReload, isOKReturn)
+		var why string
+		if missed != nil {
+			why = "check-then-insert without re-validation: if the target terminates between the table lookup and the insert, its drain has already run, the request returns nil and the requester is never notified"
 		} else {
-			r.Bad(rule3, key3, fn, a.P.Pos(localAdd.Pos()), inst3, "check-then-insert without re-validation: if the target terminates between the table lookup and the insert, its drain has already run, the request returns nil and the requester is never notified")
+			// the gone edge of each reload takes the relation back
+			for _, rl := range walkAvoid([]Point{after(localAdd)}, nil, isReload) {
+				okv := tupleExtract(rl.(ssa.Value), 1)
+				if okv == nil {
+					why = "the result of the re-validation lookup is not used"
+					break
+				}
+				_, gone, _ := boolEdges(okv)
+				var st []Point
+				for _, e := range gone {
+					st = append(st, Point{e.To(), 0})
+				}
+				if len(st) == 0 {
+					why = "the re-validation lookup is not branched on"
+					break
+				}
+				if reaches(st, func(in ssa.Instruction) bool { return callsNamed(in, wantRemove) }, isReturn) != nil {
+					why = "the target is found gone after the insert but the relation is left in place"
+					break
+				}
+			}
+		}
+		if why == "" {
+			r.OK(rule3, key3, fn, a.P.Pos(localAdd.Pos()), inst3, "the target is looked up again after the insert on every path; on the gone edge the relation is removed")
+		} else {
+			r.Bad(rule3, key3, fn, a.P.Pos(localAdd.Pos()), inst3, why)
 		}
 	}
 }
